@@ -242,6 +242,17 @@ func (m *Manager) RouteAllTrafficToNewVersion(c *TrafficRoutingContext) (bool, e
 	// build up the network provider
 	stableService := c.ObjectRef[0].Service
 	cServiceName := getCanaryServiceName(stableService, c.OnlyTrafficRouting, c.DisableGenerateCanaryService)
+	// if the last step configured no traffic, the canary Service does not exist (never created, or already
+	// removed), and routing all traffic to it would send every request into a void
+	if cServiceName != stableService {
+		err := m.Get(context.TODO(), client.ObjectKey{Namespace: c.Namespace, Name: cServiceName}, &corev1.Service{})
+		if errors.IsNotFound(err) {
+			klog.Infof("%s canary service(%s) not found, skip routing all traffic to new version", c.Key, cServiceName)
+			return false, nil
+		} else if err != nil {
+			return false, err
+		}
+	}
 	trController, err := newNetworkProvider(m.Client, c, stableService, cServiceName)
 	if err != nil {
 		klog.Errorf("%s newTrafficRoutingController failed: %s", c.Key, err.Error())
